@@ -79,11 +79,22 @@ def PRun.toRun (r : PRun) : Run :=
   { ops := flatten r.ops
     points := r.points.map fun p => ((flatten (r.ops.take p.1)).length, p.2) }
 
+/-- poll regularity: the log provider of a started, open coordinator is asked at least every 2 s —
+    whatever its earlier answers were (errors, panics included) -/
+def twoSeconds : Nat := 2000000000
+
+def regular (endT : Nat) (st : PollStats) : Bool :=
+  if st.n = 0 then decide (endT < twoSeconds)
+  else decide (st.first ≤ twoSeconds) && decide (st.maxGap ≤ twoSeconds) && decide (endT ≤ st.last + twoSeconds)
+
 /-- C17 for executions through the plugin: the coordinator-level predicate on the flattened histories
-    (lockout, boundaries, confirmed set, order independence) and the answers of every operation -/
-def pspec (cfg : Cfg) (probes ckeys : List Str) (runs : List PRun) (obs : List (List Obs)) (outs : List (List POut)) : Bool :=
+    (lockout, boundaries, confirmed set, order independence), the answers of every operation, and the
+    regularity of the background poller over each execution (`ends` = time at which each was observed last) -/
+def pspec (cfg : Cfg) (probes ckeys : List Str) (runs : List PRun) (obs : List (List Obs)) (outs : List (List POut))
+    (ends : List Nat) (polls : List PollStats) : Bool :=
   spec cfg probes ckeys (runs.map PRun.toRun) obs &&
-    zipAll (fun r o => readsOk cfg r.ops [] Stage.init o) runs outs
+    zipAll (fun r o => readsOk cfg r.ops [] Stage.init o) runs outs &&
+    zipAll regular ends polls
 
 /-! ### which conjunct fails -/
 
@@ -113,8 +124,11 @@ def explainReads (cfg : Cfg) : List (Nat × POp) → List (Nat × Op) → Stage 
     else explainReads cfg h (pre ++ (flat pop).map (fun op => (t, op))) (stageStep st pop) os
   | _, _, _, _ => some "wrong number of operation answers"
 
-def pexplain (cfg : Cfg) (probes ckeys : List Str) (runs : List PRun) (obs : List (List Obs)) (outs : List (List POut)) : String :=
+def pexplain (cfg : Cfg) (probes ckeys : List Str) (runs : List PRun) (obs : List (List Obs)) (outs : List (List POut))
+    (ends : List Nat) (polls : List PollStats) : String :=
   if runs.length ≠ outs.length then "wrong number of runs" else
+  if !zipAll regular ends polls then
+    "poll regularity: a started coordinator did not ask its log provider for more than 2 s" else
   match (runs.zip outs).findSome? (fun ro => explainReads cfg ro.1.ops [] Stage.init ro.2) with
   | some s => s
   | none => explain cfg probes ckeys (runs.map PRun.toRun) obs
